@@ -12,8 +12,10 @@ import (
 func init() {
 	registry["C06"] = func() []*seqmc.Spec {
 		cap := 4
+		pairCap := 2
 		if thorough {
 			cap = 9
+			pairCap = 3
 		}
 		return []*seqmc.Spec{
 			{Property: "C06", Component: "Stack", Inits: []string{"empty"}, New: func(string) seqmc.Sys {
@@ -22,6 +24,13 @@ func init() {
 			{Property: "C06", Component: "LStack", Inits: []string{"1", "2", "3"}, New: func(in string) seqmc.Sys {
 				v := int(in[0] - '0')
 				return &stackSys{name: "LStack", s: stack.NewLinked[int](v), model: []int{v}, cap: cap}
+			}},
+			// two instances side by side (whatever the implementation keeps at package level)
+			{Property: "C06", Component: "Stack x Stack", KeyName: "Stack", Inits: []string{"empty"}, New: func(string) seqmc.Sys {
+				return seqmc.Pair(&stackSys{name: "Stack", s: stack.New[int](), cap: pairCap}, &stackSys{name: "Stack", s: stack.New[int](), cap: pairCap})
+			}},
+			{Property: "C06", Component: "LStack x LStack", KeyName: "LStack", Inits: []string{"1"}, New: func(string) seqmc.Sys {
+				return seqmc.Pair(&stackSys{name: "LStack", s: stack.NewLinked[int](1), model: []int{1}, cap: pairCap}, &stackSys{name: "LStack", s: stack.NewLinked[int](2), model: []int{2}, cap: pairCap})
 			}},
 		}
 	}
